@@ -10,7 +10,7 @@ JUDGED = set(runfam.FIELD_OWNER)  # every field: the statement lists lines, vari
 
 def main(tier):
     n = 250 if tier == "quick" else 4000
-    return runfam.run(PID, tier, groups=("core", "control", "validity"), judged=JUDGED, ncases=n,
+    return runfam.run(PID, tier, groups=("core", "control", "validity", "rewrite"), judged=JUDGED, ncases=n,
                       methods=("collect", "next", "fast_forward", "nexts"), seed_salt=700)
 
 
